@@ -54,6 +54,15 @@ def countingHeal : HealAdv (Nat × Nat) Unit Unit :=
   ⟨fun s _ _ => ((s.1 + 1, s.2), .ok (nthText 'r' s.1)),
    fun s _ => ((s.1, s.2 + 1), .ok ⟨false, (), some (nthText 't' s.2), ()⟩)⟩
 
+/-- a validator that accepts from its `k`-th answer on (state: validator calls) -/
+def validFrom (k : Nat) : HealAdv Nat Unit Unit :=
+  ⟨fun s _ _ => (s, .ok "out"), fun s _ => (s + 1, .ok ⟨decide (s ≥ k), (), none, ()⟩)⟩
+
+/-- (outcome, tagged, generator calls, valid) of the model against `validFrom k` with `max_retries = 3` -/
+def healedAt (k : Nat) : Option (Outcome × Bool × Nat × Bool) :=
+  let run := heal unitOps ⟨3⟩ (validFrom k) 0 "p"
+  run.res.toOption.map fun r => (r.outcome, r.tagged, run.calls.length, r.isValid)
+
 /-- the error context the model shows to call `i` of a never-valid run with budget 4 -/
 def ctxShownTo (i : Nat) : Option (Option ErrCtx) :=
   (heal unitOps ⟨4⟩ countingHeal (0, 0) "p").calls[i]?.map (·.ctx)
